@@ -81,7 +81,7 @@ func register(p Property) { Registry[p.ID()] = p }
 // ---- read scripts (partitions of an input into reads)
 
 // PartitionKinds are the delivery strategies of DESIGN.md C07.
-var PartitionKinds = []string{"whole", "bytewise", "fixed", "geometric", "twocut", "token", "page", "eofdata", "zeros"}
+var PartitionKinds = []string{"whole", "bytewise", "fixed", "geometric", "twocut", "token", "page", "eofdata", "zeros", "manyzeros"}
 
 // MakeReads builds a read script for n bytes of input. toks (may be nil)
 // gives token boundaries for targeted cuts. It returns the script and the
@@ -155,6 +155,12 @@ func MakeReads(r *prng.R, n int, kind string, p *gen.Prog) []simio.ReadStep {
 		out = MakeReads(r, n, prng.Pick(r, []string{"geometric", "fixed", "whole"}), p)
 	case "zeros":
 		out = MakeReads(r, n, prng.Pick(r, []string{"geometric", "fixed", "token", "whole"}), p)
+	case "manyzeros":
+		// a zero-byte read in front of every piece, well over a hundred of them in one call
+		k := max(1, n/r.Range(110, 260))
+		for i := 0; i < n || len(out) < 240; i += k {
+			out = append(out, simio.ReadStep{Zero: true}, simio.ReadStep{N: k})
+		}
 	}
 	return out
 }
@@ -285,6 +291,7 @@ func Exec(p *bcl.Prog, out, log *bytes.Buffer, opts int) *ExecResult {
 		r.RawBlocks, r.RawBinding = bs, bd
 	}()
 	r.Out, r.Log = out.String()[o0:], log.String()[l0:]
+	Beat()
 	return r
 }
 
@@ -304,6 +311,7 @@ func ExecW(p *bcl.Prog, out, log *simio.SimWriter, opts int) *ExecResult {
 		r.RawBlocks, r.RawBinding = bs, bd
 	}()
 	r.Out, r.Log = out.String()[o0:], log.String()[l0:]
+	Beat()
 	return r
 }
 
